@@ -10,6 +10,7 @@ import (
 	"fmt"
 	"io"
 	"math"
+	"reflect"
 	"runtime"
 	"runtime/debug"
 	"strings"
@@ -383,12 +384,25 @@ func wkbEncHandler(raw json.RawMessage) map[string]any {
 	obs["wr"], obs["wrs"], obs["rd"] = []any{}, []any{}, []any{}
 	obs["hex"] = map[string]any{"ok": false, "nib": []int{}, "lower": false, "dlow": "", "dup": ""}
 	obs["sql"] = []any{}
+	obs["ne"], obs["ndr"], obs["sqlv"], obs["wf"] = []any{}, []int{}, []any{}, []any{}
+	wf := &wfSet{seen: map[string]bool{}, list: []any{}}
+	if !fourD(c.G) {
+		// a geometry the formats cannot carry: should an encoder hand out bytes for it all the same, they are decoded
+		// again, and garbage must not be able to claim gigabytes (element limits far above anything in the models)
+		wkbcommon.MaxGeometryElements = [4]int{0, 1 << 16, 1 << 16, 1 << 16}
+		defer func() { wkbcommon.MaxGeometryElements = [4]int{0, -1, -1, -1} }()
+	}
 	b, err := marshalFlavor(g, order, c.Flavor)
 	if err != nil {
 		enc["err"] = err.Error()
+		// Marshal refuses the geometry: what the other encoders (stream, hex, Value of a wrapper) make of it
+		obs["ne"] = refusedObs(g, order, c.Flavor)
 		return obs
 	}
 	enc["ok"], enc["bytes"] = true, byteInts(b)
+	if bn, err := marshalFlavor(g, wkb.NDR, c.Flavor); err == nil {
+		obs["ndr"] = byteInts(bn)
+	}
 	// decode
 	rd := &schedReader{data: b, sizes: []int{0}}
 	g2, err := readFlavor(rd, c.Flavor)
@@ -398,6 +412,7 @@ func wkbEncHandler(raw json.RawMessage) map[string]any {
 		p := projWKB(g2, ordTok)
 		decd["ok"], decd["g"], decd["consumed"] = true, p, rd.pos
 		obs["digest"] = digestOf(p)
+		wf.add(g2)
 	}
 	// failing writer at every position (received bytes recorded for a seeded sample of positions)
 	wr, wrs := []any{}, []any{}
@@ -429,8 +444,10 @@ func wkbEncHandler(raw json.RawMessage) map[string]any {
 		e := map[string]any{"name": s.name, "zero": s.zero, "ok1": false, "ok2": false, "d1": "", "d2": "", "c1": -1, "c2": -1}
 		if ga, err := readFlavor(r, c.Flavor); err == nil {
 			e["ok1"], e["d1"], e["c1"] = true, digestOf(projWKB(ga, ordTok)), r.pos
+			wf.add(ga)
 			if gb, err := readFlavor(r, c.Flavor); err == nil {
 				e["ok2"], e["d2"], e["c2"] = true, digestOf(projWKB(gb, ordTok)), r.pos
+				wf.add(gb)
 			}
 		}
 		rds = append(rds, e)
@@ -476,15 +493,183 @@ func wkbEncHandler(raw json.RawMessage) map[string]any {
 			if err != nil {
 				return "error"
 			}
+			wf.add(gg)
 			return digestOf(projWKB(gg, ordTok))
 		}
 		hx["dlow"], hx["dup"] = decHex(hs), decHex(strings.ToUpper(hs))
 	}
 	// database/sql wrappers (they always use NDR and default options)
 	if c.Flavor != "wkbnan" {
-		obs["sql"] = sqlObs(g, c.Flavor)
+		obs["sql"] = sqlObs(g, c.Flavor, wf)
+		obs["sqlv"] = directValueObs(g, c.Flavor)
 	}
+	obs["wf"] = wf.list
 	return obs
+}
+
+// fourD: every node of the case's geometry is in one of the four layouts of the formats.
+func fourD(g wkbG) bool {
+	switch g.L {
+	case "XY", "XYZ", "XYM", "XYZM":
+	default:
+		return false
+	}
+	switch g.T {
+	case "MPT", "MLS", "MPG", "GC":
+		for _, k := range dec[[]wkbG](g.Body) {
+			if !fourD(k) {
+				return false
+			}
+		}
+	}
+	return true
+}
+
+// wfSet collects the flat representations (wfList) of every geometry a decoder handed out, without repetitions.
+type wfSet struct {
+	seen map[string]bool
+	list []any
+}
+
+func (s *wfSet) add(g geom.T) {
+	if isNilGeom(g) {
+		return
+	}
+	for _, o := range wfList(g) {
+		k, _ := json.Marshal(o)
+		if !s.seen[string(k)] {
+			s.seen[string(k)] = true
+			s.list = append(s.list, o)
+		}
+	}
+}
+
+// direct returns the SQL wrappers of the flavour that can hold g, populated directly (not by Scan).
+func direct(g geom.T, flavor string) map[string]scanValuer {
+	out := map[string]scanValuer{}
+	if flavor == "ewkb" {
+		switch g := g.(type) {
+		case *geom.Point:
+			out["PT"] = &ewkb.Point{Point: g}
+		case *geom.LineString:
+			out["LS"] = &ewkb.LineString{LineString: g}
+		case *geom.Polygon:
+			out["PG"] = &ewkb.Polygon{Polygon: g}
+		case *geom.MultiPoint:
+			out["MPT"] = &ewkb.MultiPoint{MultiPoint: g}
+		case *geom.MultiLineString:
+			out["MLS"] = &ewkb.MultiLineString{MultiLineString: g}
+		case *geom.MultiPolygon:
+			out["MPG"] = &ewkb.MultiPolygon{MultiPolygon: g}
+		case *geom.GeometryCollection:
+			out["GC"] = &ewkb.GeometryCollection{GeometryCollection: g}
+		}
+		return out
+	}
+	out["ANY"] = &wkb.Geom{T: g}
+	switch g := g.(type) {
+	case *geom.Point:
+		out["PT"] = &wkb.Point{Point: g}
+	case *geom.LineString:
+		out["LS"] = &wkb.LineString{LineString: g}
+	case *geom.Polygon:
+		out["PG"] = &wkb.Polygon{Polygon: g}
+	case *geom.MultiPoint:
+		out["MPT"] = &wkb.MultiPoint{MultiPoint: g}
+	case *geom.MultiLineString:
+		out["MLS"] = &wkb.MultiLineString{MultiLineString: g}
+	case *geom.MultiPolygon:
+		out["MPG"] = &wkb.MultiPolygon{MultiPolygon: g}
+	case *geom.GeometryCollection:
+		out["GC"] = &wkb.GeometryCollection{GeometryCollection: g}
+	}
+	return out
+}
+
+// directValueObs: Value() of every wrapper that can hold g, populated directly.
+func directValueObs(g geom.T, flavor string) []any {
+	out := []any{}
+	ws := direct(g, flavor)
+	for _, wt := range []string{"PT", "LS", "PG", "MPT", "MLS", "MPG", "GC", "ANY"} {
+		w, ok := ws[wt]
+		if !ok {
+			continue
+		}
+		e := map[string]any{"w": wt, "ev": "ok", "ok": false, "val": []int{}}
+		if ev, msg := call(func() {
+			v, err := w.Value()
+			if vb, isb := v.([]byte); isb && err == nil {
+				e["ok"], e["val"] = true, byteInts(vb)
+			}
+		}); ev != "ok" {
+			e["ev"] = "panic: " + msg
+		}
+		out = append(out, e)
+	}
+	return out
+}
+
+// refusedObs: Marshal returned an error for g. Every other encoder is tried too; whatever bytes one of them
+// hands out are decoded again (recorded as api, ev, ok, dec{ok, g}).
+func refusedObs(g geom.T, order binary.ByteOrder, flavor string) []any {
+	out := []any{}
+	noG := map[string]any{"t": "-", "l": "-", "srid": []int{}, "body": []any{}}
+	try := func(api string, f func() ([]byte, error)) {
+		e := map[string]any{"api": api, "ev": "ok", "ok": false, "dec": map[string]any{"ok": false, "g": noG}}
+		if ev, msg := call(func() {
+			b, err := f()
+			if err != nil {
+				return
+			}
+			e["ok"] = true
+			if g2, err := readFlavor(&schedReader{data: b, sizes: []int{0}}, flavor); err == nil {
+				e["dec"] = map[string]any{"ok": true, "g": projWKB(g2, ordTok)}
+			}
+		}); ev != "ok" {
+			e["ev"] = "panic: " + msg
+		}
+		out = append(out, e)
+	}
+	try("write", func() ([]byte, error) {
+		w := &failWriter{f: 1 << 20}
+		err := writeFlavor(w, g, order, flavor)
+		return w.got, err
+	})
+	try("hex", func() ([]byte, error) {
+		var hs string
+		var err error
+		switch flavor {
+		case "wkb":
+			hs, err = wkbhex.Encode(g, order)
+		case "wkbnan":
+			hs, err = wkbhex.Encode(g, order, nanOpt())
+		default:
+			hs, err = ewkbhex.Encode(g, order)
+		}
+		if err != nil {
+			return nil, err
+		}
+		return hex.DecodeString(hs)
+	})
+	if flavor != "wkbnan" {
+		ws := direct(g, flavor)
+		for _, wt := range []string{"PT", "LS", "PG", "MPT", "MLS", "MPG", "GC", "ANY"} {
+			if w, ok := ws[wt]; ok {
+				try("value:"+wt, func() ([]byte, error) {
+					v, err := w.Value()
+					if err != nil {
+						return nil, err
+					}
+					vb, isb := v.([]byte)
+					if !isb {
+						return nil, errors.New("no bytes")
+					}
+					return vb, nil
+				})
+			}
+		}
+	}
+	return out
 }
 
 type scanValuer interface {
@@ -546,10 +731,15 @@ func sqlWrappers(flavor string) map[string]func() (scanValuer, func() geom.T) {
 	}
 }
 
-// sqlObs: Scan the NDR encoding into a wrapper of every type, and Value() of what was scanned.
-func sqlObs(g geom.T, flavor string) []any {
+// sqlObs: Scan the NDR and the XDR encoding into a wrapper of every type, Value() of what was scanned, and Scan of
+// sources that are not byte slices (nil, a string, an integer).
+func sqlObs(g geom.T, flavor string, wf *wfSet) []any {
 	out := []any{}
 	b, err := marshalFlavor(g, wkb.NDR, flavor)
+	if err != nil {
+		return out
+	}
+	bx, err := marshalFlavor(g, wkb.XDR, flavor)
 	if err != nil {
 		return out
 	}
@@ -558,37 +748,57 @@ func sqlObs(g geom.T, flavor string) []any {
 		if !ok {
 			continue
 		}
-		w, get := mk()
-		e := map[string]any{"w": wt, "scan": "none", "d": "", "val": []int{}, "valok": false, "str": "none"}
-		ev, msg := call(func() {
-			err := w.Scan(append([]byte{}, b...))
-			if err != nil {
-				var ext wkbcommon.ErrUnexpectedType
-				if errors.As(err, &ext) {
-					e["scan"] = "wrongtype"
-				} else {
-					e["scan"] = "other: " + err.Error()
+		e := map[string]any{"w": wt, "str": "error", "int": "error", "nil": "error"}
+		scan := func(pfx string, src []byte) {
+			w, get := mk()
+			e[pfx+"scan"], e[pfx+"d"], e[pfx+"val"], e[pfx+"valok"] = "none", "", []int{}, false
+			ev, msg := call(func() {
+				err := w.Scan(append([]byte{}, src...))
+				if err != nil {
+					var ext wkbcommon.ErrUnexpectedType
+					if errors.As(err, &ext) {
+						e[pfx+"scan"] = "wrongtype"
+					} else {
+						e[pfx+"scan"] = "other: " + err.Error()
+					}
+					return
 				}
-				return
+				if isNilGeom(get()) {
+					e[pfx+"scan"] = "null"
+					return
+				}
+				wf.add(get())
+				e[pfx+"d"] = digestOf(projWKB(get(), ordTok))
+				v, err := w.Value()
+				if vb, ok := v.([]byte); ok && err == nil {
+					e[pfx+"valok"], e[pfx+"val"] = true, byteInts(vb)
+				}
+			})
+			if ev != "ok" {
+				e[pfx+"scan"] = "panic: " + msg
 			}
-			e["d"] = digestOf(projWKB(get(), ordTok))
-			v, err := w.Value()
-			if vb, ok := v.([]byte); ok && err == nil {
-				e["valok"], e["val"] = true, byteInts(vb)
-			}
-		})
-		if ev != "ok" {
-			e["scan"] = "panic: " + msg
 		}
-		// a non-[]byte source must be refused
-		w2, _ := mk()
-		if ev, msg := call(func() {
-			if err := w2.Scan("not bytes"); err != nil {
-				e["str"] = "error"
+		scan("", b)
+		scan("x", bx)
+		// sources that are not byte slices: refused with an error, taken as NULL, or (who knows) understood
+		other := func(key string, src any) {
+			w, get := mk()
+			if ev, msg := call(func() {
+				if err := w.Scan(src); err == nil {
+					if isNilGeom(get()) {
+						e[key] = "null"
+					} else {
+						e[key] = "geom"
+						wf.add(get())
+					}
+				}
+			}); ev != "ok" {
+				e[key] = "panic: " + msg
 			}
-		}); ev != "ok" {
-			e["str"] = "panic: " + msg
 		}
+		other("str", "not bytes")
+		other("int", int64(7))
+		other("nil", nil)
 		out = append(out, e)
 	}
 	return out
@@ -601,7 +811,20 @@ type wkbDecCase struct {
 	Flavor string `json:"flavor"` // wkb | ewkb
 	Nan    bool   `json:"nan"`
 	Lim    []int  `json:"lim"`
-	Via    string `json:"via"` // "" | hex | sql
+	// "" (stream reader) | hex (hex image of Bytes) | hexstr (the string whose characters are HexCodes, valid hex
+	// or not) | sql (Scan of the wrapper named by Wrap: ANY PT LS PG MPT MLS MPG GC)
+	Via      string `json:"via"`
+	Wrap     string `json:"wrap"`
+	HexCodes []int  `json:"hexcodes"`
+}
+
+// isNilGeom: a wrapper that holds no geometry shows a nil interface (wkb.Geom) or a typed nil pointer.
+func isNilGeom(g geom.T) bool {
+	if g == nil {
+		return true
+	}
+	v := reflect.ValueOf(g)
+	return v.Kind() == reflect.Ptr && v.IsNil()
 }
 
 func wkbDecHandler(raw json.RawMessage) map[string]any {
@@ -617,17 +840,17 @@ func wkbDecHandler(raw json.RawMessage) map[string]any {
 		fl = "wkbnan"
 	}
 	noG := map[string]any{"t": "-", "l": "-", "srid": []int{}, "body": []any{}}
-	obs := map[string]any{"ok": false, "err": "none", "errclass": "none", "g": noG, "consumed": -1, "alloc": 0, "d1": "", "d2": "", "re": "none", "wf": []any{}}
+	obs := map[string]any{"ok": false, "err": "none", "errclass": "none", "g": noG, "consumed": -1, "alloc": 0, "d1": "", "d2": "", "re": "none", "wf": []any{},
+		"deep": false, "pre": []any{}}
 	var g geom.T
 	var err error
+	null := false // a wrapper reported success and holds no geometry (the SQL NULL of the wrappers)
 	rd := &schedReader{data: data, sizes: []int{0}}
 	old := debug.SetGCPercent(-1)
 	var m0, m1 runtime.MemStats
 	runtime.ReadMemStats(&m0)
 	ev, msg := call(func() {
-		switch c.Via {
-		case "hex":
-			s := hex.EncodeToString(data)
+		hexDecode := func(s string) {
 			if fl == "ewkb" {
 				g, err = ewkbhex.Decode(s)
 			} else if fl == "wkbnan" {
@@ -635,20 +858,33 @@ func wkbDecHandler(raw json.RawMessage) map[string]any {
 			} else {
 				g, err = wkbhex.Decode(s)
 			}
+		}
+		switch c.Via {
+		case "hex":
+			hexDecode(hex.EncodeToString(data))
+		case "hexstr":
+			rs := make([]rune, len(c.HexCodes))
+			for i, v := range c.HexCodes {
+				rs[i] = rune(v)
+			}
+			hexDecode(string(rs))
 		case "sql":
-			if fl == "ewkb" {
-				w := &ewkb.GeometryCollection{}
-				err = w.Scan(data)
-				g = w.GeometryCollection
-				if err == nil && g == nil {
-					err = errors.New("nil")
-				}
-			} else {
-				w := &wkb.Geom{}
-				err = w.Scan(data)
-				g = w.T
-				if err == nil && g == nil {
-					err = errors.New("nil")
+			if fl == "wkbnan" {
+				panic("harness: the SQL wrappers cannot be given the NaN option")
+			}
+			wt := c.Wrap
+			if wt == "" {
+				wt = "ANY"
+			}
+			mk, ok := sqlWrappers(fl)[wt]
+			if !ok {
+				panic("harness: no wrapper " + wt + " in flavour " + fl)
+			}
+			w, get := mk()
+			err = w.Scan(data)
+			if err == nil {
+				if g = get(); isNilGeom(g) {
+					g, null = nil, true
 				}
 			}
 		default:
@@ -677,10 +913,21 @@ func wkbDecHandler(raw json.RawMessage) map[string]any {
 		}
 		return obs
 	}
+	if null {
+		obs["err"], obs["errclass"] = "no error and no geometry", "null"
+		return obs
+	}
 	obs["ok"] = true
 	if ev, msg := call(func() {
 		p := projWKB(g, ordBytes)
-		obs["g"], obs["consumed"], obs["d1"] = p, rd.pos, digestOf(p)
+		obs["consumed"], obs["d1"] = rd.pos, digestOf(p)
+		if gcDepth(g) > 40 {
+			// the JSON reader of the model checker refuses documents nested deeper than 255: a deep tree is recorded
+			// as its preorder node list (collections: member count; every other geometry: the complete node)
+			obs["deep"], obs["pre"] = true, preWKB(g, ordBytes, []any{})
+		} else {
+			obs["g"] = p
+		}
 		obs["wf"] = wfList(g)
 		// canonical: re-encode and decode again
 		b2, err := marshalFlavor(g, wkb.NDR, fl)
@@ -699,6 +946,35 @@ func wkbDecHandler(raw json.RawMessage) map[string]any {
 		obs["ok"] = false
 	}
 	return obs
+}
+
+func gcDepth(g geom.T) int {
+	gc, ok := g.(*geom.GeometryCollection)
+	if !ok || gc == nil {
+		return 0
+	}
+	d := 0
+	for _, m := range gc.Geoms() {
+		if k := gcDepth(m); k > d {
+			d = k
+		}
+	}
+	return d + 1
+}
+
+// preWKB: preorder node list of a geometry tree; a collection node carries its member count and an empty body,
+// every other node is the complete projection (n = 0).
+func preWKB(g geom.T, ord func(float64) any, out []any) []any {
+	if gc, ok := g.(*geom.GeometryCollection); ok {
+		out = append(out, map[string]any{"t": "GC", "l": layoutName(gc.Layout()), "srid": sridBytes(gc.SRID()), "n": gc.NumGeoms(), "body": []any{}})
+		for i := 0; i < gc.NumGeoms(); i++ {
+			out = preWKB(gc.Geom(i), ord, out)
+		}
+		return out
+	}
+	p := projWKB(g, ord)
+	p["n"] = 0
+	return append(out, p)
 }
 
 // wfList: the flat representation (kind, layout, stride, lengths, ends) of every non-collection node, for
